@@ -437,11 +437,20 @@ func concurrentRun(args []string) {
 					didtransformer.WithIncludePublishedOperations(true), didtransformer.WithIncludeUnpublishedOperations(true))
 				dtr := doctransformer.New(doctransformer.WithIncludePublishedOperations(true))
 
-				for i := 1; i <= 4; i++ {
+				for i := 1; i <= 7; i++ {
 					i := i
-					keyType := []string{"JsonWebKey2020", "EcdsaSecp256k1VerificationKey2019", "Bls12381G2Key2020", "JsonWebKey2020"}[i-1]
+					keyType := []string{"JsonWebKey2020", "EcdsaSecp256k1VerificationKey2019", "Bls12381G2Key2020", "JsonWebKey2020",
+						"Ed25519VerificationKey2018", "Ed25519VerificationKey2020", "Ed25519VerificationKey2018"}[i-1]
 					k := cenv.keyJSON(CEnt{i, 1})
 					k["type"] = keyType
+
+					if i >= 5 {
+						// Ed25519 keys held as JWK, a different key per document (the transformer converts them to base58 / multibase)
+						ek := pool.Get("ed", fmt.Sprintf("conc-tr-ed-%d", i))
+						delete(k, "publicKeyBase58")
+						k["publicKeyJwk"] = map[string]interface{}{"kty": ek.JWK.Kty, "crv": ek.JWK.Crv, "x": ek.JWK.X}
+						k["purposes"] = []interface{}{"authentication"}
+					}
 
 					doc := document.Document{"publicKey": []interface{}{k}, "service": []interface{}{cenv.svcJSON(CEnt{i, 1})}}
 					if i == 4 {
